@@ -11,7 +11,7 @@ import itertools
 import numpy as np
 
 from mcx.core import Check
-from mcx.explore import explore, Ctx, Horizon
+from mcx.explore import explore, roots, Ctx, Horizon
 from mcx.ref.mc import McScript, chi2_ref, same_shape
 from mcx.seams import owned_random, patched, quiet_stdout
 
@@ -271,7 +271,16 @@ class C09(Check):
             u.append({'pair': pair, 'restr': 'none', 'kinds': kinds, 'n': 50, 'H': 400, 'D': 1})
             u.append({'pair': pair, 'restr': 'one', 'kinds': kinds, 'n': 2000, 'H': 9000, 'D': 1,
                       'dev_at': [0, 1, 2, 1000, 1998, 1999]})
-        return u
+        # partition heavy configurations by their first choices (exact partition, see explore.roots)
+        out = []
+        for c in u:
+            if c['D'] is not None and c['D'] >= 3 and c['n'] <= 3 and not c['pair'].startswith('p1x1'):
+                cfg = {k: c[k] for k in ('pair', 'restr', 'kinds', 'n')}
+                for r in roots(lambda ctx: Run(cfg, ctx, c['H']), c['D'], 3):
+                    out.append(dict(c, root=r))
+            else:
+                out.append(c)
+        return out
 
     def cases(self, unit, tier, seed):
         yield dict(unit, diff=(tier == 'thorough'))
@@ -323,7 +332,7 @@ class C09(Check):
             ctx = Ctx(case['choices'])
             on_exec(ctx, one(ctx), False)
             return
-        st = explore(one, D, on_exec)
+        st = explore(one, D, on_exec, root=case.get('root', ()))
 
 
 CHECK = C09()
